@@ -1,16 +1,18 @@
 ---------------------------- MODULE SyntaxTrace ----------------------------
 (***************************************************************************)
-(* C08, the verdict: every line of the trace is one formatting round trip  *)
-(* performed on the real code (harness/src/syntax.rs):                     *)
+(* C08, the verdict: every line of the trace is one source text that was   *)
+(* formatted by the real printer at every line width and parsed again by   *)
+(* the real parser (harness/src/syntax.rs):                                *)
 (*   case      what was formatted (an enumerated tree, a file, a generated *)
-(*             module), width: the line width                              *)
-(*   kind      "expr" (orig/reparsed are expression trees) or "module"     *)
+(*             module)                                                     *)
+(*   kind      "expr" (the trees are expression trees) or "module"         *)
 (*   orig      syntax tree of the source text, canonical JSON (no          *)
 (*             positions, no comment references, imports grouped by module *)
 (*             and sorted -- the equalities the property allows)           *)
-(*   reparsed  syntax tree of the formatter's output, parsed again         *)
-(*   err       the formatter's output had syntax errors (or a panic)       *)
-(* The property: ~err /\ reparsed = orig.  TLC evaluates it per line.      *)
+(*   trips     one entry per distinct outcome: widths (the line widths     *)
+(*             that produced it), reparsed (syntax tree of the formatter's *)
+(*             output), err (that output had syntax errors, or a panic)    *)
+(* The property: ~err /\ reparsed = orig for every trip; TLC evaluates it.  *)
 (*                                                                         *)
 (* One deviation is listed in known-findings.json as open, and tolerated   *)
 (* iff TolerateAssoc: for an associative operator o in {+ * && || ::} the  *)
@@ -68,16 +70,19 @@ RegroupModule(m) == [m EXCEPT !.tops = [i \in DOMAIN @ |-> RegroupTop(@[i])]]
 Regroup(r) == IF r.kind = "expr" THEN RegroupE(r.orig) ELSE RegroupModule(r.orig)
 
 \* ---- the verdict
-Exact(r) == ~r.err /\ r.reparsed = r.orig
-UpToKnown(r) == ~r.err /\ r.reparsed = Regroup(r)
-Holds(r) == Exact(r) \/ (TolerateAssoc /\ UpToKnown(r))
+TripExact(r, tr) == ~tr.err /\ tr.reparsed = r.orig
+TripKnown(r, tr) == ~tr.err /\ tr.reparsed = Regroup(r)
+TripHolds(r, tr) == TripExact(r, tr) \/ (TolerateAssoc /\ TripKnown(r, tr))
+Holds(r) == \A i \in DOMAIN r.trips : TripHolds(r, r.trips[i])
+Exact(r) == \A i \in DOMAIN r.trips : TripExact(r, r.trips[i])
 
 Verdict == l > 0 => Holds(Rec[l])
 \* always TRUE: names the lines that pass only because of the open finding
-ReportKnown == (l > 0 /\ ~Exact(Rec[l]) /\ TolerateAssoc /\ UpToKnown(Rec[l]))
-                 => PrintT(<<"KNOWN", Rec[l].case, Rec[l].width>>)
-\* always TRUE: names every failing line (TLC is run with -continue)
-ReportBad == (l > 0 /\ ~Holds(Rec[l])) => PrintT(<<"BAD", Rec[l].case, Rec[l].width, l>>)
+ReportKnown == (l > 0 /\ Holds(Rec[l]) /\ ~Exact(Rec[l])) => PrintT(<<"KNOWN", Rec[l].case, l>>)
+\* always TRUE: names every failing line with the widths of its first failing trip (TLC runs with -continue)
+FirstBad(r) == CHOOSE i \in DOMAIN r.trips : ~TripHolds(r, r.trips[i]) /\ \A j \in 1..(i - 1) : TripHolds(r, r.trips[j])
+ReportBad == (l > 0 /\ ~Holds(Rec[l])) =>
+               PrintT(<<"BAD", Rec[l].case, l, Rec[l].trips[FirstBad(Rec[l])].widths, Rec[l].trips[FirstBad(Rec[l])].err>>)
 
 \* every line was judged
 AllJudged == TLCGet("stats").distinct = N + 1
